@@ -204,10 +204,43 @@ func genScaleExp(t *rapid.T) int {
 	return ir(t, -13000, 13000, "expWide")
 }
 
+// topBandLead returns (c, e) with c a k-digit number (k <= maxK) next to the first k digits of the largest
+// coefficient and e = 6111 + (35 - k) (sometimes one off): c * 10^e sits at the very top of the range, where the
+// exponent excess has to be moved into the coefficient and the result is finite only if c * 10^(35-k) <= Cmax.
+func topBandLead(t *rapid.T, maxK int) (*big.Int, int) {
+	k := ir(t, 1, maxK, "k")
+	lead := new(big.Int).Quo(ref.Cmax, ref.Pow10(35-k))
+	switch ir(t, 0, 3, "offKind") {
+	case 0:
+		lead.Add(lead, bi(int64(ir(t, -3, 3, "off"))))
+	case 1:
+		lead.Sub(lead, bi(int64(ir(t, 0, 4000, "below"))))
+	case 2:
+		// anywhere in the top decade
+		lo := ref.Pow10(k - 1)
+		span := new(big.Int).Sub(lead, lo)
+		if span.Sign() > 0 {
+			r := new(big.Int).SetUint64(u64(t, "r"))
+			lead = new(big.Int).Add(lo, r.Mod(r, span))
+		}
+	}
+	if lead.Sign() <= 0 {
+		lead.SetInt64(1)
+	}
+	if lead.Cmp(ref.Cmax) > 0 {
+		lead.Set(ref.Cmax)
+	}
+	e := ref.Emax + 35 - k
+	if ir(t, 0, 5, "eOff") == 0 {
+		e += ir(t, -1, 1, "eo")
+	}
+	return lead, e
+}
+
 func TestC11_New(t *testing.T) {
 	runRapid(t, 150000, 5000000, func(t *rapid.T) {
 		var sig int64
-		switch ir(t, 0, 5, "sigKind") {
+		switch ir(t, 0, 6, "sigKind") {
 		case 0:
 			sig = []int64{math.MinInt64, math.MinInt64 + 1, math.MaxInt64, math.MaxInt64 - 1, 1, -1, 5, -5, 0}[ir(t, 0, 8, "bound")]
 		case 1:
@@ -219,6 +252,16 @@ func TestC11_New(t *testing.T) {
 			if rapid.Bool().Draw(t, "neg") {
 				sig = -sig
 			}
+		case 4:
+			// exponent above the range, compensated by a short significand that lands next to the largest
+			// coefficient: the first k digits of Cmax +- a little, at exponent 6111 + (35 - k)
+			lead, e := topBandLead(t, 19)
+			sig = lead.Int64()
+			if rapid.Bool().Draw(t, "neg") {
+				sig = -sig
+			}
+			c11new.Run(t, c11NewArgs{Sig: sig, Exp: e})
+			return
 		default:
 			sig = int64(u64(t, "sig"))
 		}
@@ -233,6 +276,12 @@ func TestC11_Ldexp(t *testing.T) {
 			f = genAny(t)
 		} else {
 			f = genFinite(t)
+		}
+		if ir(t, 0, 9, "topBand") == 0 {
+			lead, e := topBandLead(t, 35)
+			fe := genExp(t)
+			c11ldexp.Run(t, c11LdexpArgs{Frac: DFin(genSign(t), lead, fe), Exp: e - fe})
+			return
 		}
 		nf := f.Num()
 		var e int
